@@ -27,7 +27,10 @@ import (
 	"github.com/AdguardTeam/AdGuardDNS/internal/backendpb"
 	"github.com/AdguardTeam/AdGuardDNS/internal/billstat"
 	"github.com/AdguardTeam/AdGuardDNS/internal/geoip"
+	"github.com/AdguardTeam/AdGuardDNS/internal/metrics"
 	"github.com/AdguardTeam/golibs/logutil/slogutil"
+	"github.com/prometheus/client_golang/prometheus"
+	"google.golang.org/protobuf/types/known/durationpb"
 	"google.golang.org/grpc"
 	"google.golang.org/grpc/codes"
 	"google.golang.org/grpc/credentials/insecure"
@@ -55,6 +58,33 @@ func (s *c16bBackend) SaveDevicesBillingStat(srv grpc.ClientStreamingServer[back
 		s.last = "rejected"
 		s.mu.Unlock()
 		return status.Error(codes.Unavailable, "scripted: unavailable")
+	}
+	// the structured refusals of the backend protocol, and a backend that does not answer in time:
+	// every kind of error the client's error handling (and its metrics decorator) distinguishes
+	if mode == "deadline" || mode == "auth" || mode == "badreq" || mode == "ratelimit" || mode == "quota" {
+		s.mu.Lock()
+		s.last = "rejected"
+		s.mu.Unlock()
+		var st *status.Status
+		var derr error
+		switch mode {
+		case "deadline":
+			<-srv.Context().Done()
+			return status.Error(codes.DeadlineExceeded, "scripted: too late")
+		case "auth":
+			st, derr = status.New(codes.Unauthenticated, "scripted").WithDetails(&backendpb.AuthenticationFailedError{Message: "scripted"})
+		case "badreq":
+			st, derr = status.New(codes.InvalidArgument, "scripted").WithDetails(&backendpb.BadRequestError{Message: "scripted"})
+		case "quota":
+			st, derr = status.New(codes.ResourceExhausted, "scripted").WithDetails(&backendpb.DeviceQuotaExceededError{Message: "scripted"})
+		default:
+			st, derr = status.New(codes.ResourceExhausted, "scripted").WithDetails(&backendpb.RateLimitedError{Message: "scripted",
+				RetryDelay: durationpb.New(time.Second)})
+		}
+		if derr != nil {
+			return status.Error(codes.Internal, derr.Error())
+		}
+		return st.Err()
 	}
 	batch, meta := map[string]int{}, map[string]int{}
 	n := 0
@@ -126,8 +156,13 @@ func TestVerifC16Uploader(t *testing.T) {
 		backendpb.RegisterDNSServiceServer(gs, be)
 		go func() { _ = gs.Serve(l) }()
 		errColl := &agdtest.ErrorCollector{OnCollect: func(context.Context, error) {}}
+		// the metrics decorator of the production wiring (cmd.initGRPCMetrics)
+		grpcMtrc, err := metrics.NewBackendGRPC(fmt.Sprintf("c16b_%d", beh), prometheus.NewRegistry())
+		if err != nil {
+			t.Fatal(err)
+		}
 		upl, err := backendpb.NewBillStat(&backendpb.BillStatConfig{Logger: slogutil.NewDiscardLogger(), ErrColl: errColl,
-			GRPCMetrics: backendpb.EmptyGRPCMetrics{}, Endpoint: &url.URL{Scheme: "grpc", Host: l.Addr().String()}})
+			GRPCMetrics: grpcMtrc, Endpoint: &url.URL{Scheme: "grpc", Host: l.Addr().String()}})
 		if err != nil {
 			t.Fatal(err)
 		}
@@ -162,8 +197,21 @@ func TestVerifC16Uploader(t *testing.T) {
 			be.mode, be.last = mode, "none"
 			be.mu.Unlock()
 			before, _ := snapshot()
-			ctx, cancel := context.WithTimeout(context.Background(), 10*time.Second)
-			rerr := r.Refresh(ctx)
+			tmo := 10 * time.Second
+			if mode == "deadline" {
+				tmo = 300 * time.Millisecond
+			}
+			ctx, cancel := context.WithTimeout(context.Background(), tmo)
+			var rerr error
+			func() {
+				// an upload that panics is an upload that failed (the periodic worker recovers it as well)
+				defer func() {
+					if v := recover(); v != nil {
+						rerr = fmt.Errorf("refresh panicked: %v", v)
+					}
+				}()
+				rerr = r.Refresh(ctx)
+			}()
 			cancel()
 			be.mu.Lock()
 			last := be.last
@@ -190,7 +238,7 @@ func TestVerifC16Uploader(t *testing.T) {
 				dd, _ := snapshot()
 				out.Emit(c16bEvent{Ev: "Record", D: d, Beh: beh, Delivered: dd})
 			} else {
-				refresh([]string{"ok", "ok", "open", "mid", "final", "ok", "earlyok"}[rng.Intn(7)])
+				refresh([]string{"ok", "ok", "open", "mid", "final", "ok", "earlyok", "deadline", "auth", "badreq", "ratelimit", "quota", "ok"}[rng.Intn(13)])
 			}
 		}
 		refresh("ok")
